@@ -202,3 +202,7 @@ where
         write!(f, "[{fitness}]")
     }
 }
+
+#[cfg(kani)]
+#[path = "/verif/kani/rosomaxa/elitism_proofs.rs"]
+mod verif_kani_proofs;
